@@ -9,11 +9,11 @@ git diff -- mosaik > /tmp/seed-$name.diff
 test -s /tmp/seed-$name.diff || { echo "empty patch"; exit 3; }
 echo "== demo with change (expect FAIL/exit 1)"
 set +e
-PYTHONPATH="$wt" timeout 120 /venv/bin/python "$demo" > /tmp/seed-$name.with.log 2>&1; with=$?
+PYTHONPATH="$wt" timeout 400 /venv/bin/python "$demo" > /tmp/seed-$name.with.log 2>&1; with=$?
 echo "exit=$with: $(tail -2 /tmp/seed-$name.with.log | tr '\n' ' ' | cut -c1-200)"
 echo "== demo on unchanged /repo (expect PASS/exit 0)"
 rm -rf /tmp/seedrun-$name; mkdir -p /tmp/seedrun-$name; cp "$wt"/demo_*.py /tmp/seedrun-$name/
-(cd /tmp/seedrun-$name && PYTHONPATH=/repo timeout 120 /venv/bin/python "$demo" > /tmp/seed-$name.without.log 2>&1); without=$?
+(cd /tmp/seedrun-$name && PYTHONPATH=/repo timeout 400 /venv/bin/python "$demo" > /tmp/seed-$name.without.log 2>&1); without=$?
 rm -rf /tmp/seedrun-$name
 echo "exit=$without: $(tail -1 /tmp/seed-$name.without.log | cut -c1-200)"
 echo "== test suite with change"
